@@ -192,6 +192,10 @@ func (r *Rx) text(prec int) string {
 	case KRef:
 		return r.Ref
 	case KRep:
+		if r.Kids[0].K == KRep {
+			// lox has no double postfix operator: group the inner repetition
+			return "(" + r.Kids[0].text(0) + ")" + cardText(r.Card)
+		}
 		return r.Kids[0].text(2) + cardText(r.Card)
 	case KCat:
 		var p []string
